@@ -3,6 +3,7 @@
 package main
 
 import (
+	"fmt"
 	"github.com/lestrrat-go/jwx/v2/jwk"
 	"crypto"
 	"crypto/hmac"
@@ -204,9 +205,92 @@ func runC03(c *ctx) {
 				"status", resp.Status, "created", created, "sesscookie", sess,
 				"cls", strings.Join([]string{p.sig, p.iss, p.aud, p.exp, p.iat, p.nbf, p.nonce, p.sub, p.sid, p.acr, fmtVal(ci)}, "/"))
 		}
+		c03Rotation(c, s, rp, ci, cv.sidReq, cv.acrCfg, cv.trusted, cv.noAlg, cv.level)
 		c03Burst(c, s, rp, ci)
 		s.close()
 	}
+}
+
+// c03Rotation: the provider has ROTATED its signing key since the relying party last fetched the key set. A token signed with the new key - now published - whose
+// CLAIMS fail a check must be rejected whatever the relying party does about its stale key cache (refresh, retry, …): no path may skip the claim checks.
+// (Tokens whose claims are all fine are not generated here: accepting them after a refresh would be legitimate, rejecting them on the first attempt is too.)
+func c03Rotation(c *ctx, s *sut, rp *replica, ci int, sidReq, acrCfg, trusted, noAlg bool, level string) {
+	base := tokPoint{"rotated", "ok", "client", "+60", "0", "absent", "ok", "ok", "present", "high"}
+	devs := []struct{ d, v string }{{"nonce", "wrong"}, {"exp", "-7"}, {"iss", "wrong"}, {"aud", "other"}, {"acr", "absent"}, {"sub", "absent"}, {"nonce", "absent"}, {"aud", "client+untrusted"}}
+	for di, dv := range devs {
+		if !c.thorough() && ci > 0 && di%2 == 1 {
+			continue
+		}
+		p := base
+		*p.field(dv.d) = dv.v
+		key, err := rsa.GenerateKey(rand.Reader, 2048)
+		if err != nil {
+			panic(err)
+		}
+		kid := fmt.Sprintf("rotated-%d-%d", ci, di)
+		jk, _ := jwk.FromRaw(&key.PublicKey)
+		jb, _ := json.Marshal(jk)
+		var jm map[string]any
+		json.Unmarshal(jb, &jm)
+		jm["kid"], jm["use"] = kid, "sig"
+		if !noAlg {
+			jm["alg"] = "RS256"
+		}
+		mintNow := time.Now().Unix()
+		s.idp.mu.Lock()
+		s.idp.extraJwks = append(s.idp.extraJwks, jm) // published from now on; the relying party's cached set does not have it yet
+		s.idp.omitIDToken = false
+		s.idp.idTokenHook = func(claims map[string]any, req *authReq) (string, bool) {
+			cl := map[string]any{"jti": claims["jti"], "iat": mintNow, "exp": mintNow + 60, "iss": s.idp.issuer, "aud": req.ClientID, "nonce": req.Nonce, "sub": "subject", "sid": req.Sid, "acr": "idporten-loa-high"}
+			switch dv.d + "=" + dv.v {
+			case "nonce=wrong":
+				cl["nonce"] = "some-other-nonce"
+			case "nonce=absent":
+				delete(cl, "nonce")
+			case "exp=-7":
+				cl["exp"] = mintNow - 7
+			case "iss=wrong":
+				cl["iss"] = "https://evil.example"
+			case "aud=other":
+				cl["aud"] = "someone-else"
+			case "aud=client+untrusted":
+				cl["aud"] = []string{req.ClientID, "untrusted-aud"}
+			case "acr=absent":
+				delete(cl, "acr")
+			case "sub=absent":
+				delete(cl, "sub")
+			}
+			hb, _ := json.Marshal(map[string]any{"typ": "JWT", "kid": kid, "alg": "RS256"})
+			pb, _ := json.Marshal(cl)
+			signing := b64(hb) + "." + b64(pb)
+			h := sha256.Sum256([]byte(signing))
+			sig, _ := rsa.SignPKCS1v15(rand.Reader, key, crypto.SHA256, h[:])
+			return signing + "." + b64(sig), true
+		}
+		s.idp.mu.Unlock()
+		b := newBrowser()
+		q := ""
+		if level != "" {
+			q = "?level=" + level
+		}
+		nav := http.Header{"Sec-Fetch-Mode": {"navigate"}, "Sec-Fetch-Dest": {"document"}}
+		r1 := b.do(rp, "GET", "http://wonderwall/oauth2/login"+q, nav)
+		lu, _ := url.Parse(r1.Location)
+		code, req, err := s.idp.authorize(lu)
+		if err != nil {
+			panic(err)
+		}
+		nKeys := len(s.mr.Keys())
+		resp := b.do(rp, "GET", "http://wonderwall/oauth2/callback?"+url.Values{"code": {code}, "state": {req.State}}.Encode(), nav)
+		c.count("sig:rotated")
+		c.emit("idtok", "sidreq", sidReq, "acrcfg", acrCfg, "trusted", trusted, "noalg", noAlg, "cookieacr", hx(req.Acr), "now", mintNow,
+			"sig", p.sig, "iss", p.iss, "aud", p.aud, "exp", p.exp, "iat", p.iat, "nbf", p.nbf, "nonce", p.nonce, "sub", p.sub, "sid", p.sid, "acr", p.acr,
+			"status", resp.Status, "created", len(s.mr.Keys()) > nKeys, "sesscookie", b.get(cookie.Session) != nil,
+			"cls", strings.Join([]string{p.sig, p.iss, p.aud, p.exp, p.iat, p.nbf, p.nonce, p.sub, p.sid, p.acr, fmtVal(ci)}, "/"))
+	}
+	s.idp.mu.Lock()
+	s.idp.idTokenHook = nil
+	s.idp.mu.Unlock()
 }
 
 // c03Burst: validation decisions must not depend on what OTHER callbacks are validating at the same moment. One really-signed token (nonce B, acr
